@@ -16,7 +16,8 @@ TOL = 1e-9   # relative to max(1, |expected|_inf); inputs are O(1), sizes <= 13x
 RULE = ('shapes: every (m,n) up to the tier bound (all parity pairs, square and not, 1-sample axes included) plus a few '
         'larger non-square ones; objects/PSFs random real (uniform, signed), impulses at every position of the small shapes, '
         'non-negative PSFs (random, gaussian, impulse, constant) as arrays and inside RichData / duck-typed containers; float32, integer, '
-        'Fortran-ordered and strided inputs; large / prime / long-thin shapes (33x37 .. 128x128) for the size-gated paths; transfer-function lists of length 0..4 given as real / '
+        'Fortran-ordered and strided inputs; every entry point on Fortran / transposed-view / strided / negative-stride layouts of '
+        'non-uniform data x dtypes float64/float32/int32/int64/uint8/uint16 against the C-contiguous result; large / prime / long-thin shapes (33x37 .. 128x128) for the size-gated paths; transfer-function lists of length 0..4 given as real / '
         'complex arrays and as callables of fx, fy, fr, ft (jitter, smear, pixel, OLPF and asymmetric test functions), in '
         'the shifted and the unshifted convention, on internally built and on caller-supplied (1-D / 2-D, with / without fr, ft) '
         'frequency grids, alone and mixed with pre-evaluated arrays; a case is non-trivial unless the array has a single sample; '
@@ -405,10 +406,96 @@ def pred_input_variants(inp):
     return True, 'ok'
 
 
+# ------------------------------------------------------------------------------------------------
+# memory layouts: every entry point on Fortran-ordered arrays, transposed views, strided and negative-stride views of
+# the same (spatially non-uniform) values must give what it gives on the C-contiguous array
+# ------------------------------------------------------------------------------------------------
+LAYOUTS = ('F', 'T', 'strided', 'negative', 'mixed')
+
+
+def _layout(a, kind):
+    a = np.ascontiguousarray(a)
+    if kind == 'C':
+        return a
+    if kind == 'F':
+        return np.asfortranarray(a)
+    if kind == 'T':
+        return np.ascontiguousarray(a.T).T
+    if kind == 'strided':
+        big = np.zeros(tuple(2 * n + 1 for n in a.shape), dtype=a.dtype)
+        sl = tuple(slice(1, None, 2) for _ in a.shape)
+        big[sl] = a
+        return big[sl]
+    rev = tuple(slice(None, None, -1) for _ in a.shape)
+    if kind == 'negative':
+        return np.ascontiguousarray(a[rev])[rev]
+    if kind == 'mixed':
+        last = (slice(None),) * (a.ndim - 1) + (slice(None, None, -1),)
+        return np.asfortranarray(a[last])[last]
+    raise ValueError(kind)
+
+
+def _layout_call(fn, o, h, kind, inp):
+    cv, ot = _impl()[:2]
+    from prysm._richdata import RichData
+    L = lambda x: _layout(x, kind)       # noqa: E731
+    dx = inp.get('dx', 0.5)
+    if fn == 'conv':
+        return cv.conv(L(o), L(h))
+    if fn == 'atf_arrays':
+        T1 = 0.5 + np.cos(0.7 * np.arange(o.size).reshape(o.shape)) ** 2
+        T2 = np.exp(1j * np.sin(np.arange(o.size).reshape(o.shape)))
+        return tuple(cv.apply_transfer_functions(L(o), 1.0, [L(T1), L(T2)], shift=sh) for sh in (False, True))
+    if fn == 'atf_callable':
+        calls = [('pixel', 3.0 * dx, 1.1 * dx), ('phase', 0.5 * dx, -0.25 * dx), ('jitter', 0.6 * dx, 0.0)]
+        outs = []
+        for sh in (False, True):
+            outs.append(cv.apply_transfer_functions(L(o), dx, [_callable(*c) for c in calls], shift=sh))
+            kw = _supplied(o.shape, dx, sh, '2d', True)
+            outs.append(cv.apply_transfer_functions(L(o), None, [_callable(*c) for c in calls], shift=sh, **{k: L(v) for k, v in kw.items()}))
+        return tuple(outs)
+    p = np.abs(h) + 0.05
+    if fn == 'otf_array':
+        return (ot.transform_psf(L(p), dx)[0], ot.mtf_from_psf(L(p), dx).data, ot.otf_from_psf(L(p), dx).data,
+                np.exp(1j * ot.ptf_from_psf(L(p), dx).data))
+    if fn == 'otf_container':
+        box = RichData(L(p), dx, 0.5)
+        return (ot.transform_psf(box)[0], ot.mtf_from_psf(box).data, ot.otf_from_psf(box).data, np.exp(1j * ot.ptf_from_psf(box).data))
+    raise ValueError(fn)
+
+
+LAYOUT_FNS = ('conv', 'atf_arrays', 'atf_callable', 'otf_array', 'otf_container')
+
+
+def pred_layouts(inp):
+    """every memory layout of the same spatially non-uniform arrays gives what the C-contiguous arrays give"""
+    fn = inp['fn']
+    dt = np.dtype(inp.get('dtype', 'float64'))
+    o = np.asarray(inp['o']).astype(dt)
+    h = np.asarray(inp['h']).astype(dt)
+    tol = 2e-4 if dt == np.float32 else TOL
+    ref = _layout_call(fn, o, h, 'C', inp)
+    for kind in inp.get('layouts', LAYOUTS):
+        try:
+            got = _layout_call(fn, o, h, kind, inp)
+        except Exception as ex:
+            return False, f'{fn} on {dt} arrays in layout {kind!r} raised {type(ex).__name__}: {ex}'
+        gs = got if isinstance(got, tuple) else (got,)
+        rs = ref if isinstance(ref, tuple) else (ref,)
+        for k, (g, r) in enumerate(zip(gs, rs)):
+            w = np.ones(np.shape(r), dtype=bool)
+            if fn.startswith('otf') and k == 3:          # phase factor: away from OTF zeros only
+                w = np.abs(rs[2]) > 1e-6
+            if np.shape(g) != np.shape(r) or not _close(np.asarray(g)[w], np.asarray(r)[w], tol):
+                return False, (f'{fn} (output {k}) on {dt} arrays of shape {o.shape} in layout {kind!r} differs from the C-contiguous '
+                               f'result: {_err(np.asarray(g), np.asarray(r))}')
+    return True, 'ok'
+
+
 PREDS = {'conv_delta': pred_conv_delta, 'conv_comm': pred_conv_comm, 'conv_linear': pred_conv_linear,
          'conv_sum': pred_conv_sum, 'conv_direct': pred_conv_direct, 'tf_ones': pred_tf_ones, 'tf_list': pred_tf_list,
          'tf_conventions': pred_tf_conventions, 'tf_callable': pred_tf_callable, 'tf_callable_grids': pred_tf_callable_grids, 'tf_psf': pred_tf_psf, 'mtf': pred_mtf,
-         'otf_container': pred_otf_container, 'input_variants': pred_input_variants}
+         'otf_container': pred_otf_container, 'input_variants': pred_input_variants, 'layouts': pred_layouts}
 
 
 def _run_pred(name, inp):
@@ -744,6 +831,18 @@ def correspondence(ctx):
             if kind in ('random', 'gaussian'):
                 _check(ctx, 'otf_container', {'psf': _l(p), 'dx': dx}, desc, nt, f'{kind}/par{m % 2}{n % 2}')
 
+    # ---------------- memory layouts x dtypes, every entry point, spatially non-uniform data
+    lshapes = [(3, 4), (4, 6), (5, 5), (1, 6), (7, 2)] + ([(8, 9), (6, 6), (12, 5)] if ctx.thorough else [])
+    ldt = ('float64', 'float32', 'int32', 'uint8', 'int64', 'uint16')
+    for si, shape in enumerate(lshapes):
+        o = np.rint(rng.uniform(-40, 40, shape))
+        h = np.rint(rng.uniform(0, 60, shape))
+        for fi, fn in enumerate(LAYOUT_FNS):
+            for dtn in (ldt if ctx.thorough else ('float64', ldt[(si + fi) % len(ldt)])):
+                oo = np.abs(o) if dtn.startswith('u') else o
+                inp = {'fn': fn, 'o': _l(oo), 'h': _l(h), 'dtype': dtn, 'dx': [0.5, 1.0, 2.0][si % 3]}
+                _check(ctx, 'layouts', inp, {'fn': fn, 'shape': list(shape), 'dtype': dtn}, shape[0] * shape[1] > 1, f'{fn}/{dtn}')
+
     # ---------------- large / prime / long-thin shapes (size-gated code paths): property predicates only
     large = [(33, 37), (64, 64), (128, 9), (41, 41), (3, 353)] + ([(97, 101), (256, 5), (128, 128)] if ctx.thorough else [])
     for shape in large:
@@ -842,6 +941,18 @@ def search(ctx, hints):
             ok, detail = _run_pred(name, inp)
             if not ok:
                 return found(name, inp, detail)
+    for shape in ((2, 3), (3, 4), (4, 6)):
+        o, h = np.rint(20 * _obj(shape)), np.rint(np.abs(30 * _obj(shape, 3)))
+        for fn in LAYOUT_FNS:
+            for dtn in ('float64', 'float32', 'int32'):
+                inp = {'fn': fn, 'o': _l(o), 'h': _l(h), 'dtype': dtn, 'dx': 0.5}
+                ok, detail = _run_pred('layouts', inp)
+                if not ok:
+                    for kind in LAYOUTS:
+                        ok1, d1 = _run_pred('layouts', dict(inp, layouts=[kind]))
+                        if not ok1:
+                            return found('layouts', dict(inp, layouts=[kind]), d1)
+                    return found('layouts', inp, detail)
     for shape in ((33, 37), (64, 64)):
         o, h = _obj(shape), _obj(shape, 3)
         for name, inp in (('conv_delta', {'o': _l(o), 'pos': [shape[0] // 2, shape[1] // 2]}), ('conv_delta', {'o': _l(o), 'pos': [1, 2]}),
@@ -860,8 +971,8 @@ def replay(inp):
     if name not in PREDS:
         print('no replay routine for item', name)
         return False
-    shape = np.asarray(inp.get('o', inp.get('psf'))).shape
-    print(f'replaying {name} on shape {shape}: ' + ', '.join(f'{k}={v}' for k, v in inp.items() if k in ('pos', 'shift', 'dx', 'calls', 'a', 'b', 'grid', 'polar', 'mixed', 'as_array', 'container', 'variant')))
+    shape = np.asarray(inp.get('o', inp.get('psf', [[0]]))).shape
+    print(f'replaying {name} on shape {shape}: ' + ', '.join(f'{k}={v}' for k, v in inp.items() if k in ('pos', 'shift', 'dx', 'calls', 'a', 'b', 'grid', 'polar', 'mixed', 'as_array', 'container', 'variant', 'fn', 'dtype', 'layouts')))
     ok, detail = _run_pred(name, inp)
     print(detail)
     return not ok
